@@ -407,7 +407,10 @@ def _slice_1d(dim_shape, lengths, index):
     else:
         rstart = start  # running start
 
-        istart = bisect.bisect_left(chunk_boundaries, start)
+        # bisect_right: after a zero-length chunk the boundary equal to
+        # ``start`` is repeated, and the block holding ``start`` lies past
+        # every copy of it.
+        istart = bisect.bisect_right(chunk_boundaries, start)
         istop = bisect.bisect_right(chunk_boundaries, stop)
 
         # the bound is not exactly tight; make it tighter?
